@@ -442,8 +442,15 @@ def corpus_part(res, scratch, tier, seed, prop, matrix, kinds, trees=False, reco
 
 
 # ------------------------------------------------------------------ C09
-def parse_obs(r):
-    return {"rc": r["rc"], "root": r["root"], "amb": r["amb"], "calls": r["calls"], "trees": sorted(r["trees"]), "over": r["over"], "thash": r["thash"]}
+def parse_obs(r, structure=False):
+    """What the caller can observe of a parse.  The denoted trees with their costs when they could be enumerated, else the hash of
+    the denotation (independent of node sharing and of the order of alternatives).  structure=True (C16: one source compiled as C
+    and as C++) also compares the shape of the DAG."""
+    o = {"rc": r["rc"], "root": r["root"], "amb": r["amb"], "calls": r["calls"], "over": r["over"],
+         "trees": sorted(r["trees"]) if not r["over"] else [], "dhash": r.get("dhash", "")}
+    if structure:
+        o["thash"] = r["thash"]
+    return o
 
 
 def la_groups(recs, lib="c"):
@@ -688,6 +695,10 @@ def check_C19(res, scratch, tier, seed):
             for r in recs:
                 if r.get("k") == "summary":
                     res.cov["evaluations"] += r.get("ops", 0)
+                elif r.get("k") == "mismatch" and r["what"] in ("hash table size", "object stack segments allocated"):
+                    # the representation (growth policy) differs from the model's: drift, not a violation - the property is about contents
+                    res.notes["representation_drift"] = res.notes.get("representation_drift", 0) + 1
+                    res.notes.setdefault("representation_drift_kinds", {})[r["what"]] = res.notes.get("representation_drift_kinds", {}).get(r["what"], 0) + 1
                 elif r.get("k") == "mismatch":
                     res.violation("C19|" + r["what"], dict(r, build=os.path.basename(bdir), behaviour=next((b for b in blocks if b[0] == "G " + r["g"]), None)))
                 elif r.get("e") == "Abort":
@@ -809,7 +820,7 @@ def check_C16(res, scratch, tier, seed):
             if r.get("k") == "summary":
                 res.cov["evaluations"] += r["parses"] + r["defs"]
             elif r.get("k") == "parse":
-                outs.setdefault(("p", r["g"], r["w"], r["la"], r["one"], r["cost"], r["rec"], r["match"]), []).append({"lib": lib, "obs": parse_obs(r)})
+                outs.setdefault(("p", r["g"], r["w"], r["la"], r["one"], r["cost"], r["rec"], r["match"]), []).append({"lib": lib, "obs": parse_obs(r, structure=True)})
             elif r.get("k") == "def":
                 outs.setdefault(("d", r["g"], r["cfg"]), []).append({"lib": lib, "obs": {"rc": r["rc"], "err": r["err"], "msg": r["msg"]}})
             elif r.get("k") == "mismatch" and lib == "c++":
